@@ -162,7 +162,7 @@ Fixpoint transfer (rem : val) (nd : val) (rpath : list pkey) {struct rem} : res 
 (* ---------------------------------------------------------------- *)
 (* rounding section                                                   *)
 
-Definition rounding_parameters : list string := ["direction"; "base"].
+Definition rounding_parameters : list string := ["direction"; "base"; "to_add_after_rounding"].
 
 Definition load_rounding_one (date : Z) (spec_func : val) : res (option val) :=
   do d <- as_dict spec_func;
